@@ -93,7 +93,35 @@ def p_C12(res, facts, tier):
     dds.table_checks(res, facts, {'sine'})
 
 
+def p_C07(res, facts, tier):
+    from .rules import quant
+    quant.check_mask_invariant(res, facts)
+    quant.check_convert(res, facts, 'C07')
+    quant.check_search(res, facts, 'C07')
+
+
+def p_C08(res, facts, tier):
+    from .rules import quant
+    quant.check_search(res, facts, 'C08')
+    quant.check_convert(res, facts, 'C08')
+
+
+def p_C09(res, facts, tier):
+    from .rules import quant
+    quant.check_convert(res, facts, 'C09')
+    quant.check_search(res, facts, 'C09')
+
+
+def p_C19(res, facts, tier):
+    from .rules import quant
+    quant.check_convert(res, facts, 'C19')
+
+
 PROPS = {
+    'C07': dict(fn=p_C07, level='proof', explanation='Mask invariant allowed in [1,4095] is inductive over new/allow/forbid (Kleene iteration over the note slice, slice length partitioned 0 / >=1), forbid rescues the LAST note; the hysteresis early return is taken only on paths that imply the cached pitch class (note mod 12) is enabled now; every value find_nearest_note can return is the note of an enabled candidate (loop invariant: the recorded best is always pc*H+k*O with pc enabled, checked inductive over both back edges).'),
+    'C08': dict(fn=p_C08, level='other', explanation='Necessary structure of the nearest-note scan only: octaves searched are exactly k-1 (if it exists), k, k+1 (if it exists) in ascending order; every returned note is either within one half step of the input or the recorded best candidate; search input is the clamped input; microvolt constants consistent. Optimality of the scan arithmetic (nearest note over all 4095 scales, tie tolerance) is NOT decided.'),
+    'C09': dict(fn=p_C09, level='other', explanation='convert(): early return exactly on paths implying (pitch class enabled) and stairstep-H < v < stairstep+W+H, rewriting only the fraction; every other path re-searches with the clamped input and its result carries no symbol of the previous conversion (history-free); the freshly constructed quantizer cannot take the early return. Monotonicity of the note sequence depends on C08 optimality and is not decided.'),
+    'C19': dict(fn=p_C19, level='other', explanation='On both return paths the record returned is the cached record, stairstep = note_num/12 is re-established whenever the note is written, fraction = v - stairstep (raw input on the hysteresis path, clamped input otherwise), early-return fraction within (-H, W+H). The chromatic [0,1)-semitone clause and the two-ulp statement are not decided.'),
     'C01': dict(fn=p_C01, level='other', explanation='calc_value per state and table-cell partition equals the documented blend start + (target-start)*sample as an exact polynomial term; its range over the invariant box (latched levels, sustain, table values in [0,1]) is [0,1] by vertex evaluation; start/end levels per phase; tables are the documented RC curves (node error + curvature bound); latches copy the output level. f32 rounding (<= 2 ulp) is not decided.'),
     'C02': dict(fn=p_C02, level='other', explanation='Complete transition relation of gate_on/gate_off/tick (5 states x 3 methods, timed states forked on roll-over) against the C02 table; every timed tick programs trunc(2^24/(time*fs)) of its own phase; roll-over is implied exactly by acc+inc > mask on the advancing path and excluded on the staying path; increment >= 1 over all legal times (range computed from TimePeriod::from) and sample rates. The tick-count inequality follows from these premises by the written lemma (DESIGN §6 C02).'),
     'C03': dict(fn=p_C03, level='proof', explanation='index() is the top 10 bits and fraction() the low 14 bits scaled to [0,1] (DDS pair terms); calc_value interpolates between adjacent cells (clamped at the end) in every timed state; gate events latch the level currently output and restart at phase 0; tick always recomputes the output from the post-state; table end points meet at phase boundaries. Over the reals; f32 rounding of the interpolation not decided.'),
